@@ -254,6 +254,21 @@ pub fn generate(rng: &mut Rng, tier: Tier) -> Case {
                 }
             }
         }
+        // now and then every descriptor below 10 is open when the shell opens
+        // a script for its own use: the descriptor it gets is already >= 10
+        if kind == Kind::Dot && !last && rng.below(4) == 0 {
+            items.push(Item::Cmd {
+                kind: Kind::Exec,
+                ops: Vec::new(),
+                redirs: (3..=9)
+                    .map(|fd| Redir {
+                        fd: Some(fd),
+                        op: Op::FileIn,
+                        operand: "e1".into(),
+                    })
+                    .collect(),
+            });
+        }
         items.push(Item::Cmd { kind, ops, redirs });
     }
     Case { items, as_file }
